@@ -90,32 +90,30 @@ func Shrink(property, engine string, fn RunFunc, rec []Entry, c Class, maxAttemp
 
 	for round := 0; round < 8 && !exhausted(); round++ {
 		before := best.Accepted
-		// 1. delete spans, largest first
-		for progress := true; progress && !exhausted(); {
-			progress = false
+		// 1. delete spans, largest first; after a success continue with the
+		// recomputed span list at the same rank
+		for i := 0; !exhausted(); {
 			spans := Spans(best.Rec)
-			// sort by length descending (insertion sort; spans are few)
-			for i := 1; i < len(spans); i++ {
-				for j := i; j > 0 && (spans[j].To-spans[j].From) > (spans[j-1].To-spans[j-1].From); j-- {
-					spans[j], spans[j-1] = spans[j-1], spans[j]
+			for a := 1; a < len(spans); a++ {
+				for b := a; b > 0 && (spans[b].To-spans[b].From) > (spans[b-1].To-spans[b-1].From); b-- {
+					spans[b], spans[b-1] = spans[b-1], spans[b]
 				}
 			}
-			for _, sp := range spans {
-				if sp.To <= sp.From || sp.From >= len(best.Values) {
-					continue
-				}
-				to := sp.To
-				if to > len(best.Values) {
-					to = len(best.Values)
-				}
-				cand := append(append([]uint64{}, best.Values[:sp.From]...), best.Values[to:]...)
-				if try(cand) {
-					progress = true
-					break // spans changed; recompute
-				}
-				if exhausted() {
-					break
-				}
+			if i >= len(spans) {
+				break
+			}
+			sp := spans[i]
+			if sp.To <= sp.From || sp.From >= len(best.Values) {
+				i++
+				continue
+			}
+			to := sp.To
+			if to > len(best.Values) {
+				to = len(best.Values)
+			}
+			cand := append(append([]uint64{}, best.Values[:sp.From]...), best.Values[to:]...)
+			if !try(cand) {
+				i++
 			}
 		}
 		// 2. delete blocks of draws
